@@ -160,3 +160,404 @@ Proof. intros H. apply suffix_bytes. eapply decode_suffix; eassumption. Qed.
 
 Lemma decode_shorter d v r : decode d = Some (v, r) -> (length r < length d)%nat.
 Proof. apply decode_progress. Qed.
+
+(* ---------- member / element layout of a decoded container ---------- *)
+Inductive olayout : list N -> list (mpv * mpv) -> list N -> Prop :=
+| OL_nil p : olayout p [] p
+| OL_cons p k pv v p' kvs r :
+    decode p = Some (k, pv) -> decode pv = Some (v, p') -> olayout p' kvs r -> olayout p ((k, v) :: kvs) r.
+
+Inductive alayout : list N -> list mpv -> list N -> Prop :=
+| AL_nil p : alayout p [] p
+| AL_cons p v p' vs r : decode p = Some (v, p') -> alayout p' vs r -> alayout p (v :: vs) r.
+
+Lemma rep_alayout f : forall g cnt d vs r, (length d < f)%nat ->
+  rep (decode_ref f) g cnt d = Some (vs, r) -> alayout d vs r /\ cnt = N.of_nat (length vs).
+Proof.
+  induction g as [|g IH]; intros cnt d vs r Hf H; cbn [rep] in H.
+  - destruct (cnt =? 0) eqn:E0; [|discriminate]. injection H as <- <-. split; [constructor | cbn; lia].
+  - destruct (cnt =? 0) eqn:E0.
+    { injection H as <- <-. split; [constructor | cbn; lia]. }
+    destruct (decode_ref f d) as [[v r1]|] eqn:E1; [|discriminate].
+    destruct (rep (decode_ref f) g (cnt - 1) r1) as [[vs' r2]|] eqn:E2; [|discriminate].
+    injection H as <- <-.
+    pose proof (decode_progress _ _ _ _ E1) as Hp.
+    apply IH in E2; [|lia]. destruct E2 as [HL Hc].
+    split; [econstructor; [eapply decode_of_ref; eassumption | exact HL] | cbn [length]; lia].
+Qed.
+
+Lemma rep_olayout f : forall g cnt d kvs r, (length d < f)%nat ->
+  rep (step_pair (decode_ref f)) g cnt d = Some (kvs, r) -> olayout d kvs r /\ cnt = N.of_nat (length kvs).
+Proof.
+  induction g as [|g IH]; intros cnt d kvs r Hf H; cbn [rep] in H.
+  - destruct (cnt =? 0) eqn:E0; [|discriminate]. injection H as <- <-. split; [constructor | cbn; lia].
+  - destruct (cnt =? 0) eqn:E0.
+    { injection H as <- <-. split; [constructor | cbn; lia]. }
+    destruct (step_pair (decode_ref f) d) as [[[k v] r1]|] eqn:E1; [|discriminate].
+    destruct (rep (step_pair (decode_ref f)) g (cnt - 1) r1) as [[kvs' r2]|] eqn:E2; [|discriminate].
+    injection H as <- <-.
+    unfold step_pair in E1.
+    destruct (decode_ref f d) as [[k0 pv]|] eqn:Ek; [|discriminate].
+    destruct (decode_ref f pv) as [[v0 p']|] eqn:Ev; [|discriminate].
+    injection E1 as <- <- <-.
+    pose proof (decode_progress _ _ _ _ Ek) as Hp1. pose proof (decode_progress _ _ _ _ Ev) as Hp2.
+    apply IH in E2; [|lia]. destruct E2 as [HL Hc].
+    split; [|cbn [length]; lia].
+    econstructor; [eapply decode_of_ref; [|eassumption]; lia | eapply decode_of_ref; [|eassumption]; lia | exact HL].
+Qed.
+
+Lemma olayout_app p kvs1 p1 kvs2 r : olayout p kvs1 p1 -> olayout p1 kvs2 r -> olayout p (kvs1 ++ kvs2) r.
+Proof. induction 1; intros H2; [exact H2 | cbn; econstructor; eauto]. Qed.
+
+Lemma olayout_snoc p kvs1 pk k pv v p' :
+  olayout p kvs1 pk -> decode pk = Some (k, pv) -> decode pv = Some (v, p') -> olayout p (kvs1 ++ [(k, v)]) p'.
+Proof. intros H1 Hk Hv. eapply olayout_app; [exact H1|]. econstructor; eauto. constructor. Qed.
+
+Lemma olayout_suffix p kvs r : olayout p kvs r -> suffix_of r p.
+Proof.
+  induction 1; [apply suffix_refl|].
+  apply decode_suffix in H. apply decode_suffix in H0. eapply suffix_trans; [eassumption|]. eapply suffix_trans; eassumption.
+Qed.
+
+Lemma olayout_length p kvs r : olayout p kvs r -> (2 * length kvs + length r <= length p)%nat.
+Proof.
+  induction 1; [cbn; lia|]. apply decode_shorter in H. apply decode_shorter in H0. cbn [length]. lia.
+Qed.
+
+Lemma alayout_suffix p vs r : alayout p vs r -> suffix_of r p.
+Proof. induction 1; [apply suffix_refl|]. apply decode_suffix in H. eapply suffix_trans; eassumption. Qed.
+
+Lemma alayout_nil p r : alayout p [] r -> p = r.
+Proof. inversion 1; reflexivity. Qed.
+
+(* ---------- the first byte ---------- *)
+Definition scalar (v : mpv) : bool :=
+  match v with MNil | MBool _ | MInt _ | MF32 _ | MF64 _ => true | _ => false end.
+
+Lemma classify_scalar b :
+  match classify b with
+  | HVal v => scalar v = true
+  | HNum k mk => forall x, scalar (mk x) = true
+  | _ => True
+  end.
+Proof. unfold classify. split_first_byte b; try exact I; try reflexivity; intros; reflexivity. Qed.
+
+Lemma decode_classify b d0 : decode (b :: d0) = decode_by (length (b :: d0)) (classify b) d0.
+Proof. unfold decode. apply decode_ref_by. Qed.
+
+Ltac by_class H Ec b :=
+  destruct (classify b) eqn:Ec; cbn [decode_by] in H; unfold ext_dec, take_len in H;
+  repeat match type of H with
+  | context [bind (take ?k ?d) _] =>
+      let ET := fresh "ET" in destruct (take k d) as [[? ?]|] eqn:ET; cbn [bind] in H
+  | context [bind (rep ?s ?g ?c ?d) _] =>
+      let ER := fresh "ER" in destruct (rep s g c d) as [[? ?]|] eqn:ER; cbn [bind] in H
+  end; try discriminate H; injection H as <- <-.
+
+Lemma decode_nonempty d v r : decode d = Some (v, r) -> exists b d0, d = b :: d0.
+Proof. destruct d as [|b d0]; [discriminate | intros _; eauto]. Qed.
+
+Section Containers.
+  Variable o : opts.
+
+  Definition not_this {A} (v : mpv) (r : list N) : rres A := if is_nil v then RNot r else mismatch_outcome o r.
+
+  Ltac other_case A Hdec Sc :=
+    unfold other_spec in A; rewrite Hdec in A;
+    first [ exact A
+          | match goal with |- match ?v with _ => _ end => destruct v; try discriminate Sc; try (specialize (Sc 0); discriminate Sc); exact A end ].
+
+  Lemma read_map_size_on d v r : bytes d -> decode d = Some (v, r) ->
+    match v with
+    | MMap kvs => exists body, read_map_size o d = ROk (N.of_nat (length kvs)) body /\ olayout body kvs r /\ suffix_of body d
+    | _ => read_map_size o d = not_this v r
+    end.
+  Proof.
+    intros Hb Hdec. destruct (decode_nonempty _ _ _ Hdec) as [b [d0 ->]].
+    pose proof (read_map_size_agrees o _ Hb) as A. unfold map_spec in A.
+    pose proof (classify_scalar b) as Sc.
+    pose proof Hdec as H. rewrite decode_classify in H. unfold not_this.
+    by_class H Ec b; rewrite ?Ec in A, Sc.
+    all: try (other_case A Hdec Sc).
+    - (* HNum *) unfold other_spec in A. rewrite Hdec in A. specialize (Sc (be_val l)).
+      destruct (mk (be_val l)); try discriminate Sc; exact A.
+    - (* HMap *) apply rep_olayout in ER; [|cbn [length]; lia]. destruct ER as [HL ->].
+      exists d0. split; [exact A | split; [exact HL | apply suffix_cons, suffix_refl]].
+    - (* HLenMap *) unfold take_len in A. rewrite ET in A. cbn [bind] in A.
+      pose proof (take_suffix _ _ _ _ ET) as Hsuf.
+      apply take_length in ET. apply rep_olayout in ER; [|cbn [length]; lia]. destruct ER as [HL Hn].
+      exists l0. rewrite <- Hn. split; [exact A | split; [exact HL | apply suffix_cons; exact Hsuf]].
+  Qed.
+
+  Lemma read_array_size_on d v r : bytes d -> decode d = Some (v, r) ->
+    match v with
+    | MArr vs => exists body, read_array_size o d = ROk (N.of_nat (length vs)) body /\ alayout body vs r /\ suffix_of body d
+    | _ => read_array_size o d = not_this v r
+    end.
+  Proof.
+    intros Hb Hdec. destruct (decode_nonempty _ _ _ Hdec) as [b [d0 ->]].
+    pose proof (read_array_size_agrees o _ Hb) as A. unfold array_spec in A.
+    pose proof (classify_scalar b) as Sc.
+    pose proof Hdec as H. rewrite decode_classify in H. unfold not_this.
+    by_class H Ec b; rewrite ?Ec in A, Sc.
+    all: try (other_case A Hdec Sc).
+    - unfold other_spec in A. rewrite Hdec in A. specialize (Sc (be_val l)).
+      destruct (mk (be_val l)); try discriminate Sc; exact A.
+    - apply rep_alayout in ER; [|cbn [length]; lia]. destruct ER as [HL ->].
+      exists d0. split; [exact A | split; [exact HL | apply suffix_cons, suffix_refl]].
+    - unfold take_len in A. rewrite ET in A. cbn [bind] in A.
+      pose proof (take_suffix _ _ _ _ ET) as Hsuf.
+      apply take_length in ET. apply rep_alayout in ER; [|cbn [length]; lia]. destruct ER as [HL Hn].
+      exists l0. rewrite <- Hn. split; [exact A | split; [exact HL | apply suffix_cons; exact Hsuf]].
+  Qed.
+
+  Lemma read_bin_size_on d v r : decode d = Some (v, r) ->
+    match v with
+    | MBin s => exists body, read_bin_size o d = ROk (N.of_nat (length s)) body /\ body = s ++ r
+    | _ => read_bin_size o d = not_this v r
+    end.
+  Proof.
+    intros Hdec. destruct (decode_nonempty _ _ _ Hdec) as [b [d0 ->]].
+    pose proof (read_bin_size_agrees o (b :: d0)) as A. unfold bin_spec in A.
+    pose proof (classify_scalar b) as Sc.
+    pose proof Hdec as H. rewrite decode_classify in H. unfold not_this.
+    by_class H Ec b; rewrite ?Ec in A, Sc.
+    all: try (other_case A Hdec Sc).
+    - unfold other_spec in A. rewrite Hdec in A. specialize (Sc (be_val l)).
+      destruct (mk (be_val l)); try discriminate Sc; exact A.
+    - unfold take_len in A. rewrite ET in A. cbn [bind] in A.
+      apply take_some in ET0. destruct ET0 as [-> Hn]. exists (l1 ++ l2). rewrite Hn. split; [exact A | reflexivity].
+  Qed.
+End Containers.
+
+(* ---------- ReadValueType on a decoded value ---------- *)
+Lemma be_val_bound s : bytes s -> be_val s < 256 ^ N.of_nat (length s).
+Proof.
+  induction s as [|x l IH] using rev_ind; intros Hb.
+  - cbn. lia.
+  - apply Forall_app in Hb. destruct Hb as [Hl Hx]. inversion Hx as [|? ? Hx0 _]; subst.
+    specialize (IH Hl). rewrite be_val_snoc, app_length. cbn [length].
+    replace (N.of_nat (length l + 1)) with (N.of_nat (length l) + 1) by lia.
+    rewrite N.pow_add_r. change (256 ^ 1) with 256. unfold byte in Hx0.
+    set (P := 256 ^ N.of_nat (length l)) in *. clearbody P. lia.
+Qed.
+
+Lemma take_be_val_bound k d s r : bytes d -> take k d = Some (s, r) -> be_val s < 256 ^ k.
+Proof.
+  intros Hb H. apply take_some in H. destruct H as [-> Hk]. apply Forall_app in Hb. destruct Hb as [Hs _].
+  rewrite <- Hk. apply be_val_bound. exact Hs.
+Qed.
+
+Lemma to_signed8_range v : v < 256 -> (-128 <= to_signed 8 v < 128)%Z.
+Proof. intros H. unfold to_signed. change (2 ^ (8 - 1)) with 128. change (2 ^ 8) with 256. destruct (v <? 128) eqn:E; lia. Qed.
+Lemma to_signed16_range v : v < 65536 -> (-32768 <= to_signed 16 v < 32768)%Z.
+Proof. intros H. unfold to_signed. change (2 ^ (16 - 1)) with 32768. change (2 ^ 16) with 65536. destruct (v <? 32768) eqn:E; lia. Qed.
+Lemma to_signed32_range v : v < 4294967296 -> (-2147483648 <= to_signed 32 v < 2147483648)%Z.
+Proof. intros H. unfold to_signed. change (2 ^ (32 - 1)) with 2147483648. change (2 ^ 32) with 4294967296. destruct (v <? 2147483648) eqn:E; lia. Qed.
+Lemma to_signed64_range v : v < 18446744073709551616 -> (-9223372036854775808 <= to_signed 64 v < 9223372036854775808)%Z.
+Proof.
+  intros H. unfold to_signed. change (2 ^ (64 - 1)) with 9223372036854775808. change (2 ^ 64) with 18446744073709551616.
+  destruct (v <? 9223372036854775808) eqn:E; lia.
+Qed.
+
+Definition has_type (v : mpv) (t : vtype) : Prop :=
+  match v with
+  | MNil => t = TNil
+  | MBool _ => t = TBool
+  | MInt z => (t = TUInt /\ (0 <= z < 18446744073709551616)%Z) \/ (t = TSInt /\ (-9223372036854775808 <= z < 9223372036854775808)%Z)
+  | MF32 _ => t = TFloat
+  | MF64 _ => t = TDouble
+  | MStr _ => t = TStr
+  | MBin _ => t = TBin
+  | MArr _ => t = TArr
+  | MMap _ => t = TMap
+  | MExt ty _ => t = if ty =? 255 then TTimestamp else TExt
+  end.
+
+Lemma value_type_sound_m b r1 : bytes r1 -> b < 256 ->
+  match decode (b :: r1) with
+  | Some (v, r) => exists t, read_value_type (b :: r1) = inl t /\ has_type v t
+  | None => True
+  end.
+Proof.
+  intros Hb Hb0.
+  unfold decode. cbn [length]. rewrite decode_ref_by.
+  unfold read_value_type. unfold classify.
+  split_first_byte b; try lia.
+  all: match goal with
+       | |- match ?X with _ => _ end =>
+           let E := fresh "E" in destruct X as [[? ?]|] eqn:E; [|exact I];
+           decode_shapes_eq E
+       end.
+  all: repeat match goal with
+       | ET : take ?k ?d = Some (?s, _) |- _ =>
+           lazymatch goal with
+           | _ : be_val s < _ |- _ => fail
+           | _ => first [ pose proof (take_be_val_bound k d s _ Hb ET) | idtac ]
+           end
+       end.
+  all: change (256 ^ 1) with 256 in *; change (256 ^ 2) with 65536 in *;
+       change (256 ^ 4) with 4294967296 in *; change (256 ^ 8) with 18446744073709551616 in *.
+  all: try match goal with
+       | H : be_val ?l < 256 |- context [to_signed 8 (be_val ?l)] => pose proof (to_signed8_range _ H)
+       | H : be_val ?l < 65536 |- context [to_signed 16 (be_val ?l)] => pose proof (to_signed16_range _ H)
+       | H : be_val ?l < 4294967296 |- context [to_signed 32 (be_val ?l)] => pose proof (to_signed32_range _ H)
+       | H : be_val ?l < 18446744073709551616 |- context [to_signed 64 (be_val ?l)] => pose proof (to_signed64_range _ H)
+       end.
+  all: try (unfold byte_meta; resolve_b_tests b;
+            repeat match goal with H : (?x =? ?c) = false |- _ => rewrite H; clear H end;
+            cbn [N.ltb N.leb N.eqb Pos.eqb N.compare Pos.compare Pos.compare_cont negb m_ty vtype_eqb];
+            eexists; split; [reflexivity|]; cbn [has_type];
+            first [ reflexivity | left; split; [reflexivity | lia] | right; split; [reflexivity | lia] ]).
+  all: first
+    [ match goal with
+      | H : take ?kl ?rr = Some (_, ?l0), H1 : take 1 ?l0 = Some _ |- context [read_ext_family (?B :: ?rr)] =>
+          let c := fresh "c" in let Hx := fresh "Hx" in
+          assert (Hkl : kl <> 0) by discriminate;
+          destruct (ext_family_len B kl rr _ _ _ _ eq_refl Hkl H H1) as [c [-> Hx]];
+          rewrite Hx; destruct (c =? 255) eqn:Ec
+      end
+    | match goal with
+      | H1 : take 1 ?rr = Some _ |- context [read_ext_family (?B :: ?rr)] =>
+          let c := fresh "c" in let Hx := fresh "Hx" in
+          match eval cbv in (m_fixed (byte_meta B)) with
+          | ?n => assert (Hn : n <> 0) by discriminate;
+                  destruct (ext_family_fix B n rr _ _ eq_refl Hn H1) as [c [-> Hx]];
+                  rewrite Hx; destruct (c =? 255) eqn:Ec
+          end
+      end ].
+  all: cbn [byte_meta N.ltb N.leb N.eqb Pos.eqb N.compare Pos.compare Pos.compare_cont m_ty vtype_eqb x_vt].
+  all: eexists; split; [reflexivity|]; cbn [has_type].
+  all: change (be_val [c]) with c; rewrite Ec; reflexivity.
+Qed.
+
+Lemma value_type_sound d v r : bytes d -> decode d = Some (v, r) ->
+  exists t, read_value_type d = inl t /\ has_type v t.
+Proof.
+  intros Hb H. destruct (decode_nonempty _ _ _ H) as [b [d0 ->]].
+  inversion Hb as [|? ? Hb0 Hb1]; subst.
+  pose proof (value_type_sound_m b d0 Hb1 Hb0) as A. rewrite H in A. exact A.
+Qed.
+
+(* ---------- ReadValue(CBinTimestamp&) ---------- *)
+Lemma land_34 v : N.land v 0x00000003FFFFFFFF = v mod 2 ^ 34.
+Proof. change 0x00000003FFFFFFFF with (N.ones 34). apply land_mask. Qed.
+
+Lemma read_ts_core o d vt off n pre l1 s r :
+  read_ext_family d = inl (Some (mkExt vt off n 255)) ->
+  take off d = Some (pre, l1) -> take n l1 = Some (s, r) -> bytes s ->
+  read_ts o d = match ts_lib s with Some (a, b) => ROk (a, b) r | None => RErr EParse end.
+Proof.
+  intros HF HT HS Hb. unfold read_ts. rewrite HF. cbn [x_code x_off x_size].
+  change (255 =? 0xFF) with true. cbn iota. rewrite HT.
+  pose proof HS as HS'. apply take_some in HS'. destruct HS' as [Hl1 Hlen].
+  pose proof (be_val_bound s Hb) as Hv. rewrite Hlen in Hv.
+  unfold ts_lib. rewrite Hlen.
+  destruct (n =? 4) eqn:E4.
+  { apply N.eqb_eq in E4. rewrite E4 in HS. unfold get_value. rewrite HS. reflexivity. }
+  destruct (n =? 8) eqn:E8.
+  { apply N.eqb_eq in E8. rewrite E8 in HS, Hv. unfold get_value. rewrite HS.
+    change (256 ^ 8) with 18446744073709551616 in Hv.
+    rewrite land_34, shiftr_div. set (v := be_val s) in *. clearbody v.
+    assert (Hq : v / 2 ^ 34 < 1073741824) by (change (2 ^ 34) with 17179869184; lia).
+    replace ((v / 2 ^ 34) mod 2 ^ 32) with (v / 2 ^ 34) by (change (2 ^ 32) with 4294967296; lia).
+    unfold to_signed. change (2 ^ (32 - 1)) with 2147483648.
+    replace (v / 2 ^ 34 <? 2147483648) with true by (symmetry; lia). reflexivity. }
+  destruct (n =? 12) eqn:E12.
+  { apply N.eqb_eq in E12. rewrite E12 in HS. unfold get_value.
+    destruct (take 8 l1) as [[s1 r2]|] eqn:T8.
+    2:{ apply (take_add_none 8 4) in T8. change (8 + 4) with 12 in T8. congruence. }
+    pose proof (take_add 8 4 _ _ _ T8) as T12. change (8 + 4) with 12 in T12. rewrite HS in T12.
+    destruct (take 4 r2) as [[s2 r']|] eqn:T4; [|discriminate].
+    assert (Es : s = s1 ++ s2) by congruence. assert (Er : r = r') by congruence. rewrite Es, Er.
+    apply take_some in T8. destruct T8 as [_ L8].
+    replace 8%nat with (length s1) by lia.
+    rewrite firstn_app_exact, skipn_app_exact. reflexivity. }
+  reflexivity.
+Qed.
+
+Lemma read_ts_other o d x :
+  read_ext_family d = inl x ->
+  match x with Some e => (x_code e =? 0xFF) = false | None => True end ->
+  read_ts o d = mismatch_via_type o d.
+Proof. intros HF Hx. unfold read_ts. rewrite HF. destruct x as [e|]; [rewrite Hx|]; reflexivity. Qed.
+
+Definition ts_result (o : opts) (v : mpv) (r : list N) : rres (Z * Z) :=
+  match v with
+  | MExt ty s => if ty =? 255
+                 then match ts_lib s with Some (a, b) => ROk (a, b) r | None => RErr EParse end
+                 else mismatch_outcome o r
+  | MNil => RNot r
+  | _ => mismatch_outcome o r
+  end.
+
+Lemma read_ts_m o b r1 : bytes r1 -> b < 256 ->
+  match decode (b :: r1) with
+  | Some (v, r) => read_ts o (b :: r1) = ts_result o v r
+  | None => True
+  end.
+Proof.
+  intros Hb Hb0.
+  pose proof (@mismatch_via_type_agrees (Z * Z) o (b :: r1)) as HM.
+  unfold decode in *. cbn [length] in *. rewrite decode_ref_by in *. unfold classify in *.
+  split_first_byte b; try lia.
+  all: match goal with
+       | |- match ?X with _ => _ end =>
+           let E := fresh "E" in destruct X as [[? ?]|] eqn:E; [|exact I];
+           decode_shapes_eq E
+       end.
+  all: cbn [ts_result is_nil] in *.
+  (* first bytes outside the ext family *)
+  all: try (rewrite (read_ts_other o _ None); [exact HM | | exact I];
+            unfold read_ext_family, byte_meta; resolve_b_tests b;
+            repeat match goal with H : (?x =? ?c) = false |- _ => rewrite H; clear H end;
+            reflexivity).
+  (* ext 8/16/32 *)
+  all: try match goal with
+      | H : take ?kl ?rr = Some (_, ?l0), H1 : take 1 ?l0 = Some _ |- context [read_ts _ (?B :: ?rr)] =>
+          let c := fresh "c" in let Hx := fresh "Hx" in
+          assert (Hkl : kl <> 0) by discriminate;
+          destruct (ext_family_len B kl rr _ _ _ _ eq_refl Hkl H H1) as [c [-> Hx]];
+          change (be_val [c]) with c; destruct (c =? 255) eqn:Ec;
+          [ apply N.eqb_eq in Ec; rewrite Ec in Hx, H1;
+            match goal with
+            | HP : take _ ?p = Some (?s, _) |- context [ts_lib ?s] =>
+                eapply (read_ts_core o _ _ _ _ _ p s); [exact Hx | | exact HP | ];
+                [ apply take_some in H; destruct H as [-> HlA]; apply take_some in H1; destruct H1 as [-> HlB];
+                  rewrite app_comm_cons, app_assoc; apply take_app_n; rewrite app_length; cbn [length] in *; lia
+                | apply take_suffix in H; apply take_suffix in H1;
+                  pose proof (suffix_bytes _ _ H1 (suffix_bytes _ _ H Hb)) as Hbp;
+                  apply take_some in HP; destruct HP as [HP _]; rewrite HP in Hbp; apply Forall_app in Hbp; apply Hbp ]
+            end
+          | rewrite (read_ts_other o _ _ Hx); [exact HM | exact Ec] ]
+      end.
+  (* fixext 1..16 *)
+  all: match goal with
+      | H1 : take 1 ?rr = Some _ |- context [read_ts _ (?B :: ?rr)] =>
+          let c := fresh "c" in let Hx := fresh "Hx" in
+          match eval cbv in (m_fixed (byte_meta B)) with
+          | ?n => assert (Hn : n <> 0) by discriminate;
+                  destruct (ext_family_fix B n rr _ _ eq_refl Hn H1) as [c [-> Hx]];
+                  change (be_val [c]) with c; destruct (c =? 255) eqn:Ec;
+                  [ apply N.eqb_eq in Ec; rewrite Ec in Hx, H1;
+                    match goal with
+                    | HP : take _ ?p = Some (?s, _) |- context [ts_lib ?s] =>
+                        eapply (read_ts_core o _ _ _ _ _ p s); [exact Hx | | exact HP | ];
+                        [ apply take_some in H1; destruct H1 as [-> HlB];
+                          rewrite app_comm_cons; apply take_app_n; cbn [length] in *; lia
+                        | apply take_suffix in H1;
+                          pose proof (suffix_bytes _ _ H1 Hb) as Hbp;
+                          apply take_some in HP; destruct HP as [HP _]; rewrite HP in Hbp; apply Forall_app in Hbp; apply Hbp ]
+                    end
+                  | rewrite (read_ts_other o _ _ Hx); [exact HM | exact Ec] ]
+          end
+      end.
+Qed.
+
+Lemma read_ts_on o d v r : bytes d -> decode d = Some (v, r) -> read_ts o d = ts_result o v r.
+Proof.
+  intros Hb H. destruct (decode_nonempty _ _ _ H) as [b [d0 ->]].
+  inversion Hb as [|? ? Hb0 Hb1]; subst.
+  pose proof (read_ts_m o b d0 Hb1 Hb0) as A. rewrite H in A. exact A.
+Qed.
+
